@@ -24,8 +24,9 @@ RULE = ("seeded random consistent battery/inverter data sets (1-5 groups, 1-3 ba
         "distinct = distinct canonical case JSON; non-trivial = >=2 groups and (non-zero remainder or a group "
         "whose proportional share is below its min power or a multi-inverter group)")
 REQUIRED_BUCKETS = ["supply", "consume", "multi-inverter", "deficit-regime", "surplus>incl", "exponent-0",
-                    "zero-headroom-group", "remainder-nonzero"]
-REQUIRED_COUNTERS = ["contract_public", "contract_greedy", "contract_multi", "enforced_bounds_observed"]
+                    "zero-headroom-group", "remainder-nonzero", "manager-level"]
+REQUIRED_COUNTERS = ["contract_public", "contract_greedy", "contract_multi", "enforced_bounds_observed",
+                     "manager_results_checked"]
 ASSUMPTIONS = ["float tolerance 1e-6*max(1,|power|)",
                "inputs restricted to the property's domain (consistent bounds, min power <= incl bound, "
                "|power| >= advertised exclusion bound)"]
@@ -37,8 +38,14 @@ def budget(tier: str) -> dict[str, Any]:
     return {"shards": 32, "cases": 300000, "hashseeds": [0, 1, 2, 3, 4, 5, 6, 7]}
 
 
+MANAGER_EVERY = 0.03  # fraction of cases additionally driven through the real BatteryManager + fake API
+
+
 def gen(rng: Any, tier: str, i: int) -> Any:
-    return batdata.gen_case(rng)
+    case = batdata.gen_case(rng)
+    if case is not None and rng.random() < MANAGER_EVERY:
+        case["mgr"] = True
+    return case
 
 
 def features(case: dict[str, Any], rec: Any) -> dict[str, Any]:
@@ -84,7 +91,59 @@ def check(case: dict[str, Any], rec: Any) -> None:
         _judge(dict(case, power=power, power_kind="enforced-band"), rec, band=True)
 
 
+def manager_round(case: dict[str, Any]) -> dict[str, Any]:
+    """One request through the real BatteryManager (real maps, data caches, algorithm with the manager's own
+    exponent, result construction) against the fake API, every call succeeding; virtual time."""
+    from ..vloop import LoopMonitor, run_virtual
+    from . import c15
+
+    mcase = dict(case, exp=1.0, kind="battery", latency=0.0, followup=False)
+    n = sum(len(g["invs"]) for g in case["groups"])
+    out: dict[str, Any] = {"rounds": []}
+    run_virtual(lambda: c15._battery_run(mcase, ["ok"] * n, out), monitor=LoopMonitor())  # noqa: SLF001
+    return out["rounds"][0] if out["rounds"] else {}
+
+
+def _manager_tier(case: dict[str, Any], rec: Any) -> None:
+    from frequenz.sdk.microgrid._power_distributing.result import OutOfBounds, Success
+
+    rnd = manager_round(case)
+    rec.bucket("manager-level")
+    p = case["power"]
+    sgn = 1.0 if p > 0 else -1.0
+    t = tol(p)
+    res, calls = rnd.get("result"), rnd.get("calls", [])
+    w = {"power": p, "calls": [{k: c[k] for k in ("id", "watts", "outcome")} for c in calls], "result": repr(res)[:500]}
+    if isinstance(res, OutOfBounds):
+        b = res.bounds
+        for edge in (b.exclusion_lower, b.exclusion_upper):
+            if edge != 0 and abs(p - edge) <= 1e-9 * max(1.0, abs(edge)):
+                rec.count("request-on-exclusion-bound-in-ulp-sliver")
+                return
+    if not isinstance(res, Success):
+        rec.violation("manager-did-not-report-success-for-in-domain-request", w)
+        return
+    rec.count("manager_results_checked")
+    rec.count("manager_set_power_calls", len(calls))
+    commanded = sum(c["watts"] for c in calls)
+    succ, exc = res.succeeded_power.as_watts(), res.excess_power.as_watts()
+    w.update({"commanded": commanded, "succeeded_power": succ, "excess_power": exc})
+    if abs(commanded + exc - p) > t:
+        rec.violation("manager:commanded-plus-excess-differs-from-request", w)
+    if abs(succ - commanded) > t:
+        rec.violation("manager:reported-set-power-differs-from-commanded-power", w)
+    if any(c["watts"] * sgn < -t for c in calls):
+        rec.violation("manager:setpoint-sign", w)
+    if exc * sgn < -t or abs(exc) > abs(p) + t:
+        rec.violation("manager:excess-sign-or-magnitude", w)
+    ids = [c["id"] for c in calls]
+    if len(ids) != len(set(ids)):
+        rec.violation("manager:component-commanded-twice", w)
+
+
 def _judge(case: dict[str, Any], rec: Any, band: bool) -> None:
+    if case.get("mgr") and not band:
+        _manager_tier(case, rec)
     f = features(case, rec) if not band else {"deficit": True, "multi": False}
     out = distmon.run(case)
     rec.count("contract_public", 1 if "public" in out["stages"] else 0)
